@@ -282,7 +282,7 @@ func runC30(c *fw.Ctx) {
 	c.Bound("local_modifications", c30Mods)
 	c.Bound("ops", c30Ops)
 	c.Bound("vectors", n)
-	c.SetRule("all ordered pairs of the 20 commits of C25 (a: absent/2 contents/exec/symlink, d: absent/file/dir x2) x 8 local modifications x {Checkout branch, Checkout hash, Reset Merge, Reset Keep} (inapplicable combinations skipped and not counted); the same op runs through go-git on copy A and real git on copy B; a case fails when local content (bytes+exec bit at its path) is gone from A although git either refused or kept it; cases where git itself discards the content (e.g. staged edits under reset --merge) are only counted; non-trivial = every executed case; distinct counts (modification, op, go-git refused?, git refused?, lost-by-both)")
+	c.SetRule("all ordered pairs of the 20 commits of C25 (quick: 12 of them, without the second contents) (a: absent/2 contents/exec/symlink, d: absent/file/dir x2) x 8 local modifications x {Checkout branch, Checkout hash, Reset Merge, Reset Keep} (inapplicable combinations skipped and not counted); the same op runs through go-git on copy A and real git on copy B; a case fails when local content (bytes+exec bit at its path) is gone from A although git either refused or kept it; cases where git itself discards the content (e.g. staged edits under reset --merge) are only counted; non-trivial = every executed case; distinct counts (modification, op, go-git refused?, git refused?, lost-by-both)")
 	c.Assume("git 2.39.5 checkout / reset --merge / reset --keep verdicts are the reference for what may be discarded; a deletion carries no content and is not judged; go-git refusing more often than git is allowed by the statement")
 
 	if v := hDevVec(); v != nil {
@@ -294,6 +294,9 @@ func runC30(c *fw.Ctx) {
 	c.ParDo(n, 0, func(k int) {
 		i := hSpread(k, n)
 		v := hVecAt(c30Dims, i)
+		if !c.Thorough() && (c25A[v[0]] == '2' || c25A[v[2]] == '2' || c25D[v[1]] == 'E' || c25D[v[3]] == 'E') {
+			return // quick: 12 of the 20 commits
+		}
 		sig, class := e.run(v)
 		if class == "" {
 			return
